@@ -1,8 +1,13 @@
-"""Extraction of the hand-written expectation blocks of the verify_* functions.
+"""Expectation blocks of the verify_* functions, read by executing them.
 
-A block is a compound statement that constructs one of the four list types of
-schema_validate_utils.hpp, takes begin()/end(), and then alternates
-validate(iter, end, ...) / ++iter, ending in validate_no_more(iter, end)."""
+A block is one object of the four list types of schema_validate_utils.hpp together with what
+is done to it: begin()/end() taken, then validate(iter, end, ...) / ++iter alternating, ending
+in validate_no_more(iter, end).  The validator code is interpreted concretely (all its data are
+literals): calls into repository helpers and local lambdas are entered with the arguments bound
+to the parameters (the list object or the iterators may be made on either side of the call),
+loops over constant arrays / initializer lists / index ranges are unrolled, counters counted.
+What the interpreter does not understand and touches a list or an iterator is a problem of
+that block (V1), as any statement between the parts of a block was before."""
 from .frontend import AnalysisBroken
 from .program import children, strip, walk, locstr, decode_string_literal
 from . import schemas
@@ -52,161 +57,523 @@ def _list_type(t):
     return None
 
 
-def extract_blocks(func, env):
-    """Blocks in one function body (env: ParmVarDecl id -> literal)."""
-    out = []
-    for comp in walk(func.body):
-        if comp.get('kind') != 'CompoundStmt':
-            continue
-        stmts = children(comp)
-        if not stmts or stmts[0].get('kind') != 'DeclStmt':
-            continue
-        vd = [d for d in children(stmts[0]) if d.get('kind') == 'VarDecl']
-        if len(vd) != 1:
-            continue
-        lt = _list_type(vd[0].get('type'))
-        if lt is None:
-            continue
-        out.append(_block(func, comp, stmts, vd[0], lt, env))
-    return out
+
+class ListObj:
+    """One list object (master_list / table_info / index_list / index_info) during interpretation."""
+
+    def __init__(self, block):
+        self.block = block
+        self.state = 'expect_validate'
+        self.begun = False
+        self.ended = False
 
 
-def _block(func, comp, stmts, listvar, lt, env):
-    b = Block()
-    b.kind = lt
-    b.func = func
-    b.loc = locstr(comp)
-    b.problems = []
-    b.entries = []
-    b.entry_locs = []
-    b.terminated = False
-    ctor = None
-    for x in walk(listvar):
-        if x.get('kind') == 'CXXConstructExpr' and _list_type(x.get('type')) == lt:
-            ctor = x
-            break
-    if ctor is None:
-        raise AnalysisBroken('%s: cannot read constructor of %s' % (b.loc, lt))
-    args = [_lit(a, env) for a in children(ctor)[1:]]
-    if any(a is None for a in args):
-        raise AnalysisBroken('%s: non-literal argument to %s constructor' % (b.loc, lt))
-    if len(args) == 2:
-        b.db_name, b.target = args
-    elif len(args) == 1:
-        b.db_name, b.target = None, args[0]
-    else:
-        raise AnalysisBroken('%s: unexpected constructor arity for %s' % (b.loc, lt))
-    # iterators
-    it_id = end_id = None
-    idx = 1
-    if len(stmts) > 1 and stmts[1].get('kind') == 'DeclStmt':
-        for d in children(stmts[1]):
-            if d.get('kind') != 'VarDecl':
-                continue
-            call = [x for x in walk(d) if x.get('kind') == 'MemberExpr' and x.get('name') in ('begin', 'end', 'cbegin', 'cend')]
-            if not call:
-                continue
-            recv = strip(children(call[0])[0])
-            if (recv.get('referencedDecl') or {}).get('id') != listvar['id']:
-                b.problems.append('iterator taken from another container')
-            if call[0]['name'] in ('begin', 'cbegin'):
-                it_id = d['id']
-            else:
-                end_id = d['id']
-        idx = 2
-    if it_id is None or end_id is None:
-        b.problems.append('begin()/end() iterators not declared after the list')
-        return b
-    # typestate: (validate ; ++iter)* ; validate_no_more
-    state = 'expect_validate'   # or 'expect_inc'
-    for s in stmts[idx:]:
-        x = strip(s)
+class Iter:
+    def __init__(self, obj, end):
+        self.obj = obj
+        self.end = end
+
+
+class Lambda:
+    def __init__(self, node, env):
+        self.node = node
+        self.env = env
+
+
+class _Return(Exception):
+    pass
+
+
+UNKNOWN = None
+MAXITER = 2000
+
+
+class Interp:
+    def __init__(self, prog, cls):
+        self.prog = prog
+        self.cls = cls
+        self.blocks = []
+        self.objs = []
+        self.depth = 0
+
+    # ---- values ---------------------------------------------------------
+    def ev(self, func, n, env):
+        x = strip(n, explicit=True)
         k = x.get('kind')
+        if k == 'StringLiteral':
+            return decode_string_literal(x.get('value'))
+        if k == 'IntegerLiteral':
+            return int(x['value'])
+        if k == 'CXXBoolLiteralExpr':
+            return bool(x.get('value'))
+        if k == 'UnaryOperator':
+            op = x.get('opcode')
+            if op == '-':
+                v = self.ev(func, children(x)[0], env)
+                return -v if isinstance(v, int) and not isinstance(v, bool) else UNKNOWN
+            if op == '*':
+                return self.ev(func, children(x)[0], env)
+            if op in ('++', '--'):
+                t = strip(children(x)[0], explicit=True)
+                rid = (t.get('referencedDecl') or {}).get('id')
+                old = self.lookup(func, rid, env)
+                if isinstance(old, int) and not isinstance(old, bool):
+                    new = old + (1 if op == '++' else -1)
+                    self.assign(rid, env, new)
+                    return old if x.get('isPostfix') else new
+                return UNKNOWN
+            return UNKNOWN
+        if k in ('CXXConstructExpr', 'CXXTemporaryObjectExpr', 'CXXStdInitializerListExpr',
+                 'CXXFunctionalCastExpr', 'CXXBindTemporaryExpr', 'MaterializeTemporaryExpr', 'ConstantExpr'):
+            c = [y for y in children(x) if y.get('kind') != 'CXXDefaultArgExpr']
+            if len(c) == 1:
+                return self.ev(func, c[0], env)
+            if k in ('CXXConstructExpr', 'CXXTemporaryObjectExpr') and len(c) > 1:
+                # std::pair<a, b>{x, y} and the like: positional aggregate
+                return [self.ev(func, y, env) for y in c]
+            return UNKNOWN
+        if k == 'InitListExpr':
+            c = [y for y in children(x) if y.get('kind') != 'CXXDefaultArgExpr']
+            vals = [self.ev(func, y, env) for y in c]
+            t = x.get('type') or ''
+            if len(vals) == 1 and isinstance(vals[0], list) and ('array<' in t or 'initializer_list' in t):
+                return vals[0]          # std::array: the aggregate around the built-in array
+            return vals
+        if k == 'DeclRefExpr':
+            return self.lookup(func, (x.get('referencedDecl') or {}).get('id'), env)
+        if k == 'LambdaExpr':
+            return Lambda(x, env)
+        if k == 'ArraySubscriptExpr':
+            c = children(x)
+            a, i = self.ev(func, c[0], env), self.ev(func, c[1], env)
+            if isinstance(a, list) and isinstance(i, int) and 0 <= i < len(a):
+                return a[i]
+            return UNKNOWN
+        if k == 'MemberExpr':
+            base = self.ev(func, children(x)[0], env) if children(x) else UNKNOWN
+            if isinstance(base, list):
+                nm = x.get('name')
+                if nm == 'first' and len(base) == 2:
+                    return base[0]
+                if nm == 'second' and len(base) == 2:
+                    return base[1]
+                idx = self.field_index(func, x)
+                if idx is not None and idx < len(base):
+                    return base[idx]
+            return UNKNOWN
+        if k == 'CXXMemberCallExpr':
+            callee = strip(children(x)[0])
+            nm = callee.get('name')
+            recv = self.ev(func, children(callee)[0], env) if children(callee) else UNKNOWN
+            if isinstance(recv, ListObj) and nm in ('begin', 'cbegin', 'end', 'cend'):
+                if nm in ('begin', 'cbegin'):
+                    recv.begun = True
+                else:
+                    recv.ended = True
+                return Iter(recv, nm in ('end', 'cend'))
+            if isinstance(recv, list):
+                if nm == 'size':
+                    return len(recv)
+                if nm in ('at',) and len(children(x)) == 2:
+                    i = self.ev(func, children(x)[1], env)
+                    return recv[i] if isinstance(i, int) and 0 <= i < len(recv) else UNKNOWN
+                if nm in ('begin', 'cbegin', 'end', 'cend', 'data'):
+                    return UNKNOWN
+            if isinstance(recv, str) and nm in ('c_str', 'data') or (nm or '').startswith('operator'):
+                return recv
+            return UNKNOWN
+        if k == 'CXXOperatorCallExpr':
+            c = children(x)
+            nm = (strip(c[0]).get('referencedDecl') or {}).get('name')
+            if nm == 'operator[]' and len(c) == 3:
+                a, i = self.ev(func, c[1], env), self.ev(func, c[2], env)
+                if isinstance(a, list) and isinstance(i, int) and 0 <= i < len(a):
+                    return a[i]
+            if nm == 'operator*' and len(c) == 2:
+                return self.ev(func, c[1], env)
+            return UNKNOWN
+        if k == 'BinaryOperator':
+            c = children(x)
+            op = x.get('opcode')
+            a, b = self.ev(func, c[0], env), self.ev(func, c[1], env)
+            if isinstance(a, int) and isinstance(b, int):
+                try:
+                    return {'<': a < b, '<=': a <= b, '>': a > b, '>=': a >= b, '==': a == b, '!=': a != b,
+                            '+': a + b, '-': a - b, '*': a * b}.get(op, UNKNOWN)
+                except Exception:
+                    return UNKNOWN
+            return UNKNOWN
+        if k == 'CallExpr':
+            nm = (strip(children(x)[0]).get('referencedDecl') or {}).get('name')
+            if nm in ('size', 'ssize') and len(children(x)) == 2:
+                a = self.ev(func, children(x)[1], env)
+                return len(a) if isinstance(a, list) else UNKNOWN
+            if nm in ('move', 'forward', 'as_const') and len(children(x)) == 2:
+                return self.ev(func, children(x)[1], env)
+        return UNKNOWN
+
+    def field_index(self, func, member_expr):
+        d = func.tu.ids.get(member_expr.get('referencedMemberDecl'))
+        if d is None or d.get('kind') != 'FieldDecl':
+            return None
+        pid = d.get('_semctx') or func.tu.parent_ctx.get(d['id'])
+        rec = func.tu.ids.get(pid)
+        if rec is None:
+            return None
+        fields = [c for c in children(rec) if c.get('kind') == 'FieldDecl']
+        for i, f_ in enumerate(fields):
+            if f_.get('id') == d.get('id'):
+                return i
+        return None
+
+    def lookup(self, func, rid, env):
+        e = env
+        while e is not None:
+            if rid in e:
+                return e[rid]
+            e = e.get('__parent__')
+        # a constant at namespace / class scope
+        d = func.tu.ids.get(rid)
+        if d is not None and d.get('kind') == 'VarDecl':
+            c = [y for y in children(d) if not y['kind'].endswith('Attr') and not y['kind'].endswith('Comment')]
+            if c:
+                return self.ev(func, c[-1], {})
+        return UNKNOWN
+
+    def assign(self, rid, env, val):
+        e = env
+        while e is not None:
+            if rid in e:
+                e[rid] = val
+                return
+            e = e.get('__parent__')
+        env[rid] = val
+
+    # ---- events ------------------------------------------------------------
+    def new_list(self, func, vd, lt, env):
+        b = Block()
+        b.kind = lt
+        b.func = func
+        b.loc = locstr(vd)
+        b.problems = []
+        b.entries = []
+        b.entry_locs = []
+        b.terminated = False
+        ctor = None
+        for x in walk(vd):
+            if x.get('kind') in ('CXXConstructExpr', 'CXXTemporaryObjectExpr', 'InitListExpr') and \
+                    _list_type(x.get('type')) == lt:
+                ctor = x
+                break
+        if ctor is None:
+            raise AnalysisBroken('%s: cannot read constructor of %s' % (b.loc, lt))
+        args = [self.ev(func, a, env) for a in children(ctor)[1:]]
+        if any(not isinstance(a, str) for a in args):
+            raise AnalysisBroken('%s: non-literal argument to %s constructor' % (b.loc, lt))
+        if len(args) == 2:
+            b.db_name, b.target = args
+        elif len(args) == 1:
+            b.db_name, b.target = None, args[0]
+        else:
+            raise AnalysisBroken('%s: unexpected constructor arity for %s' % (b.loc, lt))
+        o = ListObj(b)
+        self.blocks.append(b)
+        self.objs.append(o)
+        return o
+
+    def touched(self, func, node, env):
+        """list objects that a piece of code refers to (directly or through an iterator)"""
+        out = []
+        for x in walk(node):
+            if x.get('kind') == 'DeclRefExpr':
+                v = self.lookup_quiet(func, (x.get('referencedDecl') or {}).get('id'), env)
+                o = v.obj if isinstance(v, Iter) else v if isinstance(v, ListObj) else None
+                if o is not None and o not in out:
+                    out.append(o)
+        return out
+
+    def lookup_quiet(self, func, rid, env):
+        e = env
+        while e is not None:
+            if rid in e:
+                return e[rid]
+            e = e.get('__parent__')
+        return UNKNOWN
+
+    def unexpected(self, func, s, env, what=None):
+        for o in self.touched(func, s, env):
+            o.block.problems.append('%s at %s' % (what or ('unexpected statement %s' % strip(s).get('kind')), locstr(s)))
+
+    def validate_call(self, func, s, x, nm, env):
+        a = children(x)[1:]
+        its = [self.ev(func, y, env) for y in a[:2]]
+        objs = [v.obj for v in its if isinstance(v, Iter)]
+        if not objs:
+            raise AnalysisBroken('%s: %s is not called on iterators of a list the validator made' % (locstr(s), nm))
+        o = objs[0]
+        b = o.block
+        good = len(its) == 2 and isinstance(its[0], Iter) and isinstance(its[1], Iter) and \
+            its[0].obj is its[1].obj and not its[0].end and its[1].end
         if b.terminated:
             b.problems.append('statement after validate_no_more at %s' % locstr(s))
-            continue
+            return
+        if nm == 'validate':
+            if not good:
+                b.problems.append('validate at %s is not called with (iter, end) of this block' % locstr(s))
+            if o.state != 'expect_validate':
+                b.problems.append('validate at %s without ++iter since the previous one' % locstr(s))
+            vals = [self.ev(func, y, env) for y in a[2:]]
+            if any(v is None or isinstance(v, (list, Iter, ListObj, Lambda)) for v in vals):
+                raise AnalysisBroken('%s: non-literal expectation' % locstr(s))
+            b.entries.append(tuple(vals))
+            b.entry_locs.append(locstr(s))
+            o.state = 'expect_inc'
+            return
+        if not good:
+            b.problems.append('validate_no_more at %s is not called with (iter, end) of this block' % locstr(s))
+        if o.state == 'expect_inc':
+            b.problems.append('validate_no_more at %s without ++iter after the last validate' % locstr(s))
+        b.terminated = True
+
+    def advance(self, it, s):
+        b = it.obj.block
+        if b.terminated:
+            b.problems.append('statement after validate_no_more at %s' % locstr(s))
+            return
+        if it.end:
+            b.problems.append('unexpected statement: the end iterator is advanced at %s' % locstr(s))
+            return
+        if it.obj.state != 'expect_inc':
+            b.problems.append('++iter at %s without a validate before it (an entry is skipped unchecked)' % locstr(s))
+        it.obj.state = 'expect_validate'
+
+    # ---- statements --------------------------------------------------------
+    def run_body(self, func, body, env):
+        self.depth += 1
+        if self.depth > 12:
+            raise AnalysisBroken('verify call depth exceeded at ' + func.qualname)
+        try:
+            self.stmt(func, body, env)
+        except _Return:
+            pass
+        self.depth -= 1
+
+    def stmt(self, func, s, env):
+        k = s.get('kind')
+        if k == 'CompoundStmt':
+            for c in children(s):
+                self.stmt(func, c, env)
+            return
+        if k == 'NullStmt':
+            return
+        if k == 'DeclStmt':
+            for d in children(s):
+                if d.get('kind') == 'VarDecl':
+                    self.decl(func, d, env)
+                elif d.get('kind') == 'DecompositionDecl':
+                    self.decomp(func, d, env)
+            return
+        if k == 'ReturnStmt':
+            if children(s):
+                self.expr(func, children(s)[0], env, s)
+            raise _Return()
+        if k == 'CXXForRangeStmt':
+            c = children(s)
+            decls = [x for x in c[:-1] if x.get('kind') == 'DeclStmt']
+            rng = loopvar = None
+            for dst in decls:
+                for vd in children(dst):
+                    if vd.get('kind') in ('VarDecl', 'DecompositionDecl') and (vd.get('name') or '').startswith('__range'):
+                        rng = vd
+            if decls:
+                lv = [vd for vd in children(decls[-1]) if vd.get('kind') in ('VarDecl', 'DecompositionDecl')]
+                loopvar = lv[0] if lv else None
+            seq = UNKNOWN
+            if rng is not None:
+                init = [y for y in children(rng) if not y['kind'].endswith('Attr')]
+                seq = self.ev(func, init[-1], env) if init else UNKNOWN
+            if not isinstance(seq, list) or loopvar is None:
+                self.unexpected(func, s, env, 'loop over a sequence that is not a constant list')
+                return
+            for el in seq[:MAXITER]:
+                if loopvar.get('kind') == 'DecompositionDecl':
+                    self.decomp(func, loopvar, env, el)
+                else:
+                    env[loopvar['id']] = el
+                self.stmt(func, c[-1], env)
+            return
+        if k == 'ForStmt':
+            c = s.get('inner') or []
+            # [init, condvar, cond, inc, body]
+            if len(c) != 5:
+                self.unexpected(func, s, env)
+                return
+            init, _, cond, inc, body = c
+            if isinstance(init, dict) and init.get('kind'):
+                self.stmt(func, init, env)
+            n = 0
+            while True:
+                v = self.ev(func, cond, env) if isinstance(cond, dict) and cond.get('kind') else UNKNOWN
+                if not isinstance(v, bool):
+                    self.unexpected(func, s, env, 'loop whose condition is not decided by constants')
+                    return
+                if not v:
+                    return
+                n += 1
+                if n > MAXITER:
+                    raise AnalysisBroken('%s: loop does not end' % locstr(s))
+                self.stmt(func, body, env)
+                if isinstance(inc, dict) and inc.get('kind'):
+                    self.expr(func, inc, env, inc)
+        if k == 'CXXTryStmt':
+            # the handlers run only when something throws: the expectations are those of the body
+            self.stmt(func, children(s)[0], env)
+            return
+        if k in ('IfStmt', 'WhileStmt', 'DoStmt', 'SwitchStmt', 'BreakStmt', 'ContinueStmt', 'GotoStmt'):
+            self.unexpected(func, s, env)
+            # control flow that is not executed here must not hide a way out of the validator or a block
+            for y in walk(s):
+                if y.get('kind') == 'ReturnStmt' or (y.get('kind') == 'VarDecl' and _list_type(y.get('type'))) or \
+                        (y.get('kind') == 'CallExpr' and (strip(children(y)[0]).get('referencedDecl') or {}).get('name')
+                         in ('validate', 'validate_no_more')):
+                    if not self.touched(func, s, env):
+                        raise AnalysisBroken('%s: %s in a validator decides whether expectations are checked: '
+                                             'outside the modelled subset' % (locstr(s), k))
+            if k in ('BreakStmt', 'ContinueStmt'):
+                for o in self.objs:
+                    if not o.block.terminated:
+                        o.block.problems.append('unexpected statement %s at %s' % (k, locstr(s)))
+            return
+        self.expr(func, s, env, s)
+
+    def decl(self, func, d, env):
+        lt = _list_type(d.get('type'))
+        t = (d.get('type') or '')
+        if lt is not None and not t.rstrip().endswith(('&', '*')):
+            env[d['id']] = self.new_list(func, d, lt, env)
+            return
+        init = [y for y in children(d) if not y['kind'].endswith('Attr') and not y['kind'].endswith('Comment')]
+        if not init:
+            env[d['id']] = UNKNOWN
+            return
+        v = self.ev(func, init[-1], env)
+        if isinstance(v, Iter):
+            v = Iter(v.obj, v.end)      # a copy is an iterator of its own position: not modelled apart
+        if v is UNKNOWN and self.touched(func, init[-1], env):
+            self.unexpected(func, d, env, 'unexpected use of the list / its iterators in a declaration')
+        env[d['id']] = v
+
+    def decomp(self, func, d, env, value=UNKNOWN):
+        binds = [b for b in children(d) if b.get('kind') == 'BindingDecl']
+        if value is UNKNOWN:
+            init = [y for y in children(d) if y.get('kind') not in ('BindingDecl',) and not y['kind'].endswith('Attr')]
+            value = self.ev(func, init[-1], env) if init else UNKNOWN
+        for i, b in enumerate(binds):
+            env[b['id']] = value[i] if isinstance(value, list) and i < len(value) else UNKNOWN
+
+    def expr(self, func, s, env, stmt_node):
+        x = strip(s)
+        k = x.get('kind')
         if k == 'CallExpr':
             callee = strip(children(x)[0])
-            nm = (callee.get('referencedDecl') or {}).get('name')
-            a = children(x)[1:]
-            ids = [_ref_id(y) for y in a[:2]]
-            if nm == 'validate':
-                if ids != [it_id, end_id]:
-                    b.problems.append('validate at %s is not called with (iter, end) of this block' % locstr(s))
-                if state != 'expect_validate':
-                    b.problems.append('validate at %s without ++iter since the previous one' % locstr(s))
-                vals = [_lit(y, env) for y in a[2:]]
-                if any(v is None for v in vals):
-                    raise AnalysisBroken('%s: non-literal expectation' % locstr(s))
-                b.entries.append(tuple(vals))
-                b.entry_locs.append(locstr(s))
-                state = 'expect_inc'
-                continue
-            if nm == 'validate_no_more':
-                if ids != [it_id, end_id]:
-                    b.problems.append('validate_no_more at %s is not called with (iter, end) of this block' % locstr(s))
-                if state == 'expect_inc':
-                    b.problems.append('validate_no_more at %s without ++iter after the last validate' % locstr(s))
-                b.terminated = True
-                continue
-            b.problems.append('unexpected call %s at %s' % (nm, locstr(s)))
-            continue
-        if k == 'CXXOperatorCallExpr':
+            ref = callee.get('referencedDecl') or {}
+            nm = ref.get('name')
+            qn = func.tu.qn.get(ref.get('id')) or ''
+            if nm in ('validate', 'validate_no_more') and qn.startswith(schemas.NS):
+                self.validate_call(func, stmt_node, x, nm, env)
+                return
+            target = schemas._repo_callee(self.prog, func, x)
+            if target is not None:
+                self.enter(func, target, target.params, children(x)[1:], env, None, target.body)
+                return
+            self.unexpected(func, stmt_node, env, 'unexpected call %s' % nm)
+            return
+        if k == 'CXXMemberCallExpr':
             callee = strip(children(x)[0])
-            nm = (callee.get('referencedDecl') or {}).get('name')
-            tgt = _ref_id(children(x)[1]) if len(children(x)) > 1 else None
-            if nm == 'operator++' and tgt == it_id:
-                if state != 'expect_inc':
-                    b.problems.append('++iter at %s without a validate before it (an entry is skipped unchecked)' % locstr(s))
-                state = 'expect_validate'
-                continue
-        b.problems.append('unexpected statement %s at %s' % (k, locstr(s)))
-    if not b.terminated:
-        b.problems.append('block is not terminated by validate_no_more(iter, end)')
-    return b
+            recv = strip(children(callee)[0]) if callee.get('kind') == 'MemberExpr' and children(callee) else None
+            if recv is not None and recv.get('kind') == 'CXXThisExpr':
+                target = schemas.resolve_this_call(self.prog, self.cls, func, callee)
+                if target is None:
+                    raise AnalysisBroken('cannot resolve %s from %s' % (callee.get('name'), func.qualname))
+                self.enter(func, target, target.params, children(x)[1:], env, None, target.body)
+                return
+            self.unexpected(func, stmt_node, env)
+            return
+        if k == 'CXXOperatorCallExpr':
+            c = children(x)
+            nm = (strip(c[0]).get('referencedDecl') or {}).get('name')
+            if nm in ('operator++',) and len(c) >= 2:
+                v = self.ev(func, c[1], env)
+                if isinstance(v, Iter):
+                    self.advance(v, stmt_node)
+                    return
+            if nm == 'operator()' and len(c) >= 2:
+                v = self.ev(func, c[1], env)
+                if isinstance(v, Lambda):
+                    lam = v.node
+                    meth = [m for r in children(lam) if r.get('kind') == 'CXXRecordDecl'
+                            for m in children(r) if m.get('kind') == 'CXXMethodDecl' and m.get('name') == 'operator()']
+                    body = [y for y in children(lam) if y.get('kind') == 'CompoundStmt']
+                    if meth and body:
+                        params = [p_ for p_ in children(meth[0]) if p_.get('kind') == 'ParmVarDecl']
+                        self.enter(func, func, params, c[2:], env, v.env, body[-1])
+                        return
+            self.unexpected(func, stmt_node, env)
+            return
+        if k == 'UnaryOperator' and x.get('opcode') in ('++', '--'):
+            t = strip(children(x)[0], explicit=True)
+            v = self.ev(func, t, env)
+            if isinstance(v, Iter):
+                if x.get('opcode') == '++':
+                    self.advance(v, stmt_node)
+                else:
+                    self.unexpected(func, stmt_node, env)
+                return
+            if self.ev(func, x, env) is UNKNOWN:
+                self.assign((t.get('referencedDecl') or {}).get('id'), env, UNKNOWN)
+            return
+        if k in ('BinaryOperator', 'CompoundAssignOperator') and (x.get('opcode') or '').endswith('=') and \
+                x.get('opcode') not in ('==', '!=', '<=', '>='):
+            c = children(x)
+            t = strip(c[0], explicit=True)
+            rid = (t.get('referencedDecl') or {}).get('id')
+            if self.touched(func, x, env):
+                self.unexpected(func, stmt_node, env)
+                return
+            r = self.ev(func, c[1], env)
+            if x['opcode'] == '=':
+                self.assign(rid, env, r)
+            else:
+                old = self.lookup_quiet(func, rid, env)
+                op = x['opcode'][:-1]
+                if isinstance(old, int) and isinstance(r, int) and op in ('+', '-'):
+                    self.assign(rid, env, old + r if op == '+' else old - r)
+                else:
+                    self.assign(rid, env, UNKNOWN)
+            return
+        self.unexpected(func, stmt_node, env)
 
-
-def _ref_id(n):
-    x = strip(n, explicit=True)
-    while x.get('kind') in ('CXXConstructExpr',) and len(children(x)) == 1:
-        x = strip(children(x)[0], explicit=True)
-    return (x.get('referencedDecl') or {}).get('id')
+    def enter(self, func, target, params, args, env, lam_env, body):
+        env2 = {'__parent__': lam_env} if lam_env is not None else {}
+        for p_, a in zip(params, args):
+            v = self.ev(func, a, env)
+            if isinstance(a, dict) and a.get('kind') == 'CXXDefaultArgExpr':
+                v = UNKNOWN
+            env2[p_['id']] = v
+        self.run_body(target, body, env2)
 
 
 def verify_trace(prog, cls):
-    """All blocks reachable from the final overrider of cls::verify, with
-    helper parameters (db_name) bound to the literals at the call sites."""
-    out = []
-    seen_calls = []
-
-    def run(func, env, depth):
-        if depth > 6:
-            raise AnalysisBroken('verify call depth exceeded at ' + func.qualname)
-        out.extend(extract_blocks(func, env))
-        for n in walk(func.body):
-            if n.get('kind') != 'CXXMemberCallExpr':
-                continue
-            callee = strip(children(n)[0])
-            if callee.get('kind') != 'MemberExpr':
-                continue
-            recv = strip(children(callee)[0]) if children(callee) else None
-            if recv is None or recv.get('kind') != 'CXXThisExpr':
-                continue
-            name = callee.get('name')
-            target = schemas.resolve_this_call(prog, cls, func, callee)
-            if target is None:
-                raise AnalysisBroken('cannot resolve %s from %s' % (name, func.qualname))
-            args = children(n)[1:]
-            env2 = {}
-            for p, a in zip(target.params, args):
-                v = _lit(a, env)
-                if v is not None:
-                    env2[p['id']] = v
-            seen_calls.append((func.qualname, target.qualname))
-            run(target, env2, depth + 1)
-
+    """All blocks reachable from the final overrider of cls::verify, in execution order."""
     f = schemas.final_overrider(prog, cls, 'verify')
     if f is None:
         raise AnalysisBroken('no verify for ' + cls)
-    run(f, {}, 0)
-    return out
+    it = Interp(prog, cls)
+    it.run_body(f, f.body, {})
+    for o in it.objs:
+        b = o.block
+        if not (o.begun and o.ended):
+            b.problems.append('begin()/end() iterators not declared after the list')
+        elif not b.terminated:
+            b.problems.append('block is not terminated by validate_no_more(iter, end)')
+    return it.blocks
